@@ -79,6 +79,7 @@ def run_verus_unit(unit_name, prop, tier, only=None):
         keep = []
         def excl_key(pat):
             # obligations name functions as Type::fn (or bare fn); excluded keys are Type::fn of the enclosing impl
+            pat = pat.lstrip('*')
             if pat in excluded:
                 return pat
             tail = '::'.join(pat.split('::')[-2:])
